@@ -7,7 +7,7 @@ from ..core import Sub
 PROP = {
     "id": "C01",
     "level": "exploration",
-    "technique": "Hypothesis-generated block specs (9 types) -> build via public API -> encode -> decode under a poisoned allocator -> field-by-field comparison with the spec + re-encode identity; every encode / decode in rotation through a pre-filled stream, a real file and a gzip stream, decodes at non-zero positions; enumerated boundary counts and long runs",
+    "technique": "Hypothesis-generated block specs (9 types) -> build via public API -> encode -> decode under a poisoned allocator -> field-by-field comparison with the spec + re-encode identity; every encode / decode in rotation through a pre-filled stream, a real file and a gzip stream, decodes at non-zero positions; enumerated boundary counts and long runs; labels as str / str-subclass / numpy.str_, optical channels as list / tuple, item objects also added to another block; enumerated counts on 2^k boundaries and long runs",
     "level_text": ("Exploration: every case is a generated valid block of one of the nine writable types (counts incl. 0, gap masks from run "
                    "lengths, boundary labels, full-range integer fields, special float bit patterns, both 3D formats, both calibration "
                    "formats, both event kinds, several input presentations). The oracle compares against the *spec* the block was built "
